@@ -329,7 +329,7 @@ var bgDoc func(c Case) any
 // runBackground feeds the staged documents to worker subprocesses; a worker that dies is a
 // violation attributed to the document in flight.
 func runBackground(r *hx.Run, root string, docs []Case) {
-	const shards = 8
+	const shards = 16
 	type res struct {
 		idx    int
 		status string
@@ -441,6 +441,7 @@ func main() {
 			return
 		}
 	}
+	tStart := time.Now()
 	r := hx.Start("C08", "model_checking")
 	root, err := os.MkdirTemp("/dev/shm", "verif-c08-")
 	if err != nil {
@@ -484,8 +485,17 @@ func main() {
 		lo, hi int    // byte string index range
 	}
 	var jobs []job
+	// one job per 250 mutations of a base (a base has thousands; one job per base left most workers idle)
+	const baseChunk = 250
 	for bi := range bases {
-		jobs = append(jobs, job{kind: "base", bi: bi})
+		n := len(mutations(bases[bi].Tree))
+		for lo := 0; lo == 0 || lo < n; lo += baseChunk {
+			hi := lo + baseChunk
+			if hi > n {
+				hi = n
+			}
+			jobs = append(jobs, job{kind: "base", bi: bi, lo: lo, hi: hi})
+		}
 	}
 	core := gen.MakeBase(true, "all", []string{"all"}, true, "v/c", false)
 	coreConf := gen.Confusions(core.Tree)
@@ -651,10 +661,17 @@ func main() {
 			}
 		}
 	}()
+	var kindNanos sync.Map // job kind -> *atomic.Int64 (time spent, summed over workers)
+	tMain := time.Now()
 	r.ParallelL(int64(len(jobs)), func(i int64, l *hx.Local) {
 		w := <-workers
 		defer func() { workers <- w }()
 		jb := jobs[i]
+		t0 := time.Now()
+		defer func() {
+			v, _ := kindNanos.LoadOrStore(jb.kind, new(atomic.Int64))
+			v.(*atomic.Int64).Add(int64(time.Since(t0)))
+		}()
 		run := func(c Case) {
 			res := w.eval(c)
 			select {
@@ -672,10 +689,15 @@ func main() {
 		case "base":
 			b := bases[jb.bi]
 			var refs []docRef
-			run(Case{Kind: "doc", Base: b.Name, Doc: b.Tree})
-			refs = append(refs, docRef{jb.bi, -1})
-			nDocs.Add(1)
+			if jb.lo == 0 {
+				run(Case{Kind: "doc", Base: b.Name, Doc: b.Tree})
+				refs = append(refs, docRef{jb.bi, -1})
+				nDocs.Add(1)
+			}
 			for mi, m := range mutations(b.Tree) {
+				if mi < jb.lo || mi >= jb.hi {
+					continue
+				}
 				run(Case{Kind: "doc", Base: b.Name, Mutations: []gen.Mutation{m}, Doc: gen.Apply(b.Tree, m)})
 				nDocs.Add(1)
 				if (r.Thorough() && mi%2 == 0) || mi%4 == 0 || strings.Contains(m.Class, "list-of-null") {
@@ -722,6 +744,18 @@ func main() {
 		}
 	})
 	close(stopWatchdog) // the background phase has its own per-document deadlines
+	r.Extra["main_phase_wall_s"] = time.Since(tMain).Seconds()
+	if os.Getenv("VERIF_TIMING") != "" {
+		fmt.Printf("timing: main phase %.1fs (since start %.1fs)\n", time.Since(tMain).Seconds(), time.Since(tStart).Seconds())
+		kindNanos.Range(func(k, v any) bool {
+			fmt.Printf("timing: %s jobs %.1f worker-seconds\n", k, float64(v.(*atomic.Int64).Load())/1e9)
+			return true
+		})
+	}
+	kindNanos.Range(func(k, v any) bool {
+		r.Extra["worker_seconds_in_"+k.(string)+"_jobs"] = float64(v.(*atomic.Int64).Load()) / 1e9
+		return true
+	})
 	// (d) background goroutine
 	sort.Slice(bgRefs, func(i, j int) bool {
 		if (bgRefs[i].mi < 0) != (bgRefs[j].mi < 0) {
@@ -758,7 +792,11 @@ func main() {
 		return nil
 	}
 	bgDoc = docOf
+	tBg := time.Now()
 	runBackground(r, root, bg)
+	if os.Getenv("VERIF_TIMING") != "" {
+		fmt.Printf("timing: background phase %.1fs for %d documents (staging started %.1fs after start)\n", time.Since(tBg).Seconds(), len(bg), tBg.Sub(tStart).Seconds())
+	}
 	r.Extra["documents"] = nDocs.Load()
 	r.Extra["byte_strings"] = nBytes.Load()
 	r.Extra["stress_documents"] = len(st)
